@@ -11,6 +11,9 @@
 //	             (z v)  Sensitive      (t xSOURCE xNAME param*)  a Type: SOURCE is parsed here, (NAME, params) = (Name(), Parameters()) is
 //	             what the model formats (checked against the parsed type by the predicate type-decomposition)
 //	             (o xTYPENAME (k v)*)  an instance of an object type of the catalogue with that init hash
+//	             (l xSOURCE xNAME RESOLVED)  a type alias used as a value (RESOLVED: its resolved type as a value, name only)
+//	             (q xSOURCE xNAME (xKEY v)*)  an object type used as a value; NAME = "" for an anonymous one, then with the entries of
+//	             its init hash (InitHash(): what basicTypeToString writes)
 // ctx syntax:    (kind xDIRECTIVE)   px.NewFormatContext(<default type of the value's kind>, NewFormat(directive), indentation)
 //
 //	             (self xDIRECTIVE)   px.NewFormatContext(v.PType(), NewFormat(directive), indentation)
@@ -210,6 +213,8 @@ var documentedDoc = map[string]string{
 	"y": "sp",
 	"t": "sp",
 	"o": "hasp",
+	"q": "sp",
+	"l": letters, // a type alias writes its name whatever the format says
 	"n": letters, // Timespan, Timestamp and Sensitive ignore the format altogether
 	"m": letters,
 	"z": letters,
@@ -308,7 +313,8 @@ func valOf(e sx.Sexp) px.Value {
 		return types.WrapTimestamp(time.Unix(a[0].MustInt(), a[1].MustInt()).UTC())
 	case "z":
 		return types.WrapSensitive(valOf(a[0]))
-	case "t":
+	case "t", "l", "q":
+		ensureCatalogue(curCtx)
 		return curCtx.ParseType(a[0].MustStr())
 	case "o":
 		ensureCatalogue(curCtx)
@@ -339,6 +345,7 @@ func ensureCatalogue(c px.Context) {
 	for _, t := range catalogue {
 		ts = append(ts, c.ParseType(t))
 	}
+	ts = append(ts, types.NewTypeAliasType("Verif::Ints", nil, c.ParseType("Array[Integer]")))
 	px.AddTypes(c, ts...)
 }
 
@@ -354,7 +361,7 @@ func entriesOfValue(e sx.Sexp) []sx.Sexp {
 func isContainerTag(t string) bool { return t == "a" || t == "h" || t == "o" }
 
 // the kinds of the extended model (op fmtx)
-func isNewTag(t string) bool { return strings.Contains("vwynmzto", t) }
+func isNewTag(t string) bool { return strings.Contains("vwynmztolq", t) }
 
 // ---- format nodes: the harness-side twin of a px.Format tree ------------------------------------------------------
 
@@ -450,8 +457,8 @@ func keyType(k string) px.Type {
 
 // which value kinds a parameterless key type accepts (Go twin of the model's `Key.accepts`)
 var keyAccepts = map[string]string{
-	"any": "ifsbudxrahvwynmzto", "scalar": "ifsbrvnm", "numeric": "if", "int": "i", "float": "f", "str": "s", "bool": "b",
-	"bin": "x", "arr": "a", "hash": "h", "coll": "ah", "undef": "u", "dflt": "d", "regexp": "r", "object": "o", "type": "t",
+	"any": "ifsbudxrahvwynmztolq", "scalar": "ifsbrvnm", "numeric": "if", "int": "i", "float": "f", "str": "s", "bool": "b",
+	"bin": "x", "arr": "a", "hash": "h", "coll": "ah", "undef": "u", "dflt": "d", "regexp": "r", "object": "o", "type": "tlq",
 	"semver": "v", "semverrange": "w", "uri": "y", "timespan": "n", "timestamp": "m", "sensitive": "z",
 }
 
@@ -489,7 +496,7 @@ func kindKey(tag string) string {
 		return "timestamp"
 	case "z":
 		return "sensitive"
-	case "t":
+	case "t", "l", "q":
 		return "type"
 	case "o":
 		return "object"
@@ -1373,6 +1380,11 @@ func exec(c px.Context, op string, args []sx.Sexp) core.Result {
 					return res("ok")
 				}
 			}
+			if inDoc && ((tag == "q" && ve.Args()[1].MustStr() == "") || (tag == "l" && d.sharp && d.letter == 'b')) {
+				// an anonymous object type formats the values of its init hash under the same map; `%#b` of an alias formats the
+				// resolved type under the same context, where a type rejects the letter b: the error may be a nested value's
+				return res("n/a")
+			}
 			if inDoc {
 				cls := "unsupported-mismatch"
 				if (d.letter == 'a' || d.letter == 'A') && strings.IndexByte("ifb", tag[0]) >= 0 {
@@ -1445,7 +1457,8 @@ func exec(c px.Context, op string, args []sx.Sexp) core.Result {
 		}
 		return fail(cls, fmt.Sprintf("%s: %d runes, width %d requested: %q", d.raw, utf8.RuneCountInString(text), d.width, text))
 	}
-	if d.width >= 0 && tag != "u" && tag != "r" && fc.mode != "map" {
+	if d.width >= 0 && tag != "u" && tag != "r" && fc.mode != "map" && !(tag == "q" && ve.Args()[1].MustStr() == "") {
+		// (an anonymous object type hands the format on to the values of its init hash: they are padded too)
 		// padding law, relative to the same directive without width, '-' and '0'
 		u := newNode(unpadded(d))
 		coreOut := renderTop(c, &fctx{mode: fc.mode, top: u, m: []entry{{key: fc.m[0].key, typ: fc.m[0].typ, n: u}}}, tag, v)
@@ -1461,8 +1474,8 @@ func exec(c px.Context, op string, args []sx.Sexp) core.Result {
 // flagsIgnored: the arm of the kind's ToString that formats this letter never calls ApplyStringFlags
 func flagsIgnored(tag string, letter byte) bool {
 	switch tag {
-	case "n", "m", "z":
-		// Timespan, Timestamp, Sensitive: the ToString never looks at the format (SemVer / URI %p and SemVerRange did the same
+	case "n", "m", "z", "l":
+		// Timespan, Timestamp, Sensitive, a type alias: the ToString never looks at the width (SemVer / URI %p and SemVerRange did the same
 		// before fix 5c2f826: there a narrow rendering is class too-narrow now)
 		return true
 	}
@@ -1513,6 +1526,32 @@ func payloadMismatch(e sx.Sexp, v px.Value) string {
 			if why := payloadMismatch(a[i+2], p); why != "" {
 				return why
 			}
+		}
+	case "l":
+		t, ok := v.(*types.TypeAliasType)
+		if !ok || t.Name() != a[1].MustStr() || t.ResolvedType().Name() != a[2].Args()[1].MustStr() {
+			return fmt.Sprintf("alias %s: not an alias of that name and resolved type", a[0].MustStr())
+		}
+	case "q":
+		t, ok := v.(px.ObjectType)
+		if !ok || t.Name() != a[1].MustStr() {
+			return fmt.Sprintf("object type %s: name %q", a[0].MustStr(), v.(px.Type).Name())
+		}
+		if t.Name() == "" {
+			ih := t.(px.PuppetObject).InitHash().(*types.Hash)
+			if ih.Len() != len(a)-2 {
+				return fmt.Sprintf("object type %s: %d init entries", a[0].MustStr(), ih.Len())
+			}
+			why := ""
+			idx := 0
+			ih.EachPair(func(k, x px.Value) {
+				kv := a[idx+2]
+				idx++
+				if why == "" && (k.String() != kv.List[0].MustStr() || !sameValue(x, valOf(kv.List[1]))) {
+					why = fmt.Sprintf("object type %s: init entry %d is %s => %s", a[0].MustStr(), idx-1, k.String(), x.String())
+				}
+			})
+			return why
 		}
 	case "o":
 		po := v.(px.PuppetObject)
@@ -1639,6 +1678,11 @@ func kindsIn(e sx.Sexp, into map[byte]bool) {
 	case "h", "o":
 		for _, kv := range entriesOfValue(e) {
 			kindsIn(kv.List[0], into)
+			kindsIn(kv.List[1], into)
+		}
+	case "q":
+		// an anonymous object type formats the values of its init hash
+		for _, kv := range e.Args()[2:] {
 			kindsIn(kv.List[1], into)
 		}
 	case "t":
